@@ -25,12 +25,28 @@ def C10_scan_comment_stmt : Prop :=
   ∀ (cc : CharClass), cc.Sane → ∀ (n pos : Nat) (c r : List Char) (s : LexState),
     (∀ x ∈ c, x ≠ '\n') →
     scan cc (n+1) pos ('#' :: (c ++ '\n' :: r)) s = scan cc n (pos + 1 + bytesOf c) ('\n' :: r) s
+theorem C10_scan_comment : C10_scan_comment_stmt := by
+  intro cc hs n pos c r s hc
+  have d1 : isDigit '#' = false := by decide
+  conv => lhs; rw [scan.eq_def]
+  simp [hs.hash_plain.1, hs.hash_plain.2, d1, skipComment_line c r (pos + 1) hc]
 
 /-- Spaces and tabs between tokens are skipped without any effect on the state. -/
 def C10_scan_blank_stmt : Prop :=
   ∀ (cc : CharClass), cc.Sane → ∀ (n pos : Nat) (r : List Char) (s : LexState),
     scan cc (n+1) pos (' ' :: r) s = scan cc n (pos + 1) r s ∧
     scan cc (n+1) pos ('\t' :: r) s = scan cc n (pos + 1) r s
+theorem C10_scan_blank : C10_scan_blank_stmt := by
+  intro cc hs n pos r s
+  have d1 : isDigit ' ' = false := by decide
+  have d2 : isDigit '\t' = false := by decide
+  have u1 : (' ' : Char).utf8Size = 1 := rfl
+  have u2 : ('\t' : Char).utf8Size = 1 := rfl
+  constructor
+  · conv => lhs; rw [scan.eq_def]
+    simp [hs.space_ws.1, hs.space_ws.2, d1, u1]
+  · conv => lhs; rw [scan.eq_def]
+    simp [hs.tab_ws.1, hs.tab_ws.2, d2, u2]
 
 /-- A line break yields a terminator exactly when the previous token can end an expression
 (first table), and never twice in a row. -/
@@ -39,6 +55,13 @@ def C10_scan_newline_stmt : Prop :=
     (lastCanEnd s = some true →
       scan cc (n+1) pos ('\n' :: r) s = scan cc n (pos + 1) r (s.push .terminatorLineBreak pos (pos + 1))) ∧
     (lastCanEnd s = some false → scan cc (n+1) pos ('\n' :: r) s = scan cc n (pos + 1) r s)
+theorem C10_scan_newline : C10_scan_newline_stmt := by
+  intro cc n pos r s
+  constructor <;> intro h
+  · conv => lhs; rw [scan.eq_def]
+    simp [h]
+  · conv => lhs; rw [scan.eq_def]
+    simp [h]
 
 /-- Table obligations over the regenerated tables (all 29 shapes): both tables are total except the
 deliberate panic arm; every operator and opening bracket cannot end an expression; every binary
@@ -73,12 +96,33 @@ theorem C10_tables_payload : C10_tables_payload_stmt := by intro w n; exact ⟨r
 def C10_no_two_linebreaks_stmt : Prop :=
   ∀ (cc : CharClass) (fuel pos : Nat) (cs : List Char) (s : LexState),
     noTwoLB s.toks → noTwoLB (scan cc fuel pos cs s).toks
+theorem C10_no_two_linebreaks : C10_no_two_linebreaks_stmt := by
+  intro cc fuel pos cs s h
+  exact scan_noTwoLB cc fuel pos cs s h
 
 /-- The token stream neither starts nor ends with a line-break terminator. -/
 def C10_no_leading_trailing_terminator_stmt : Prop :=
   ∀ (cc : CharClass) (text : List Char) (ts : List Tok), tokenize cc text = .ok ts →
     (ts.head?.map (·.kind)) ≠ some .terminatorLineBreak ∧
     (ts.getLast?.map (·.kind)) ≠ some .terminatorLineBreak
+theorem C10_no_leading_trailing_terminator : C10_no_leading_trailing_terminator_stmt := by
+  intro cc text ts h
+  have hf := tokenize_ok h
+  constructor
+  · have hfirst := scan_first_not_lineBreak cc text.length 0 text { toks := [], errs := [] }
+      (by intro t ht; cases ht)
+    rw [← List.head?_reverse] at hfirst
+    generalize (scan cc text.length 0 text { toks := [], errs := [] }).toks.reverse = l at hf hfirst
+    cases l with
+    | nil => simp [filterToks] at hf; subst hf; simp
+    | cons a r =>
+      obtain ⟨r', rfl⟩ := filterToks_head a r ts hf (hfirst a rfl)
+      intro hk
+      exact hfirst a rfl (by simpa using hk)
+  · have hl := filterToks_last _ _ hf
+    cases hg : ts.getLast? with
+    | none => simp
+    | some t => intro hk; exact hl t hg (by simpa using hk)
 
 /-! ## Non-vacuity: the same program laid out in two ways gives the same kinds -/
 
